@@ -35,7 +35,7 @@ def apply_mutant(m, root):
     open(path, "w").write(src)
 
 
-def run_one(m, checks, tier, keep, extra_env):
+def run_one(m, checks, tier, keep, extra_env, only_given=False):
     root = f"/tmp/vmut-{m['id']}-{os.getpid()}"
     shutil.rmtree(root, ignore_errors=True)
     os.makedirs(root)
@@ -49,7 +49,12 @@ def run_one(m, checks, tier, keep, extra_env):
         return res
     env = dict(os.environ, VERIF_REPO=root, VERIF_TMP="/tmp")
     env.update(extra_env)
-    for c in checks or m["expect"] + m.get("also", []):
+    mine = m["expect"] + m.get("also", [])
+    if checks and not only_given:
+        run_these = [c for c in mine if c in checks]
+    else:
+        run_these = checks or mine
+    for c in run_these:
         t0 = time.time()
         p = subprocess.run([os.path.join(HERE, "check"), c, tier], env=env, capture_output=True, text=True, timeout=3600)
         out = p.stdout + p.stderr
@@ -82,7 +87,7 @@ def main():
         todo = [m for m in todo if set(m["expect"] + m.get("also", [])) & set(checks)]
     out = []
     with cf.ThreadPoolExecutor(max_workers=args.j) as ex:
-        futs = {ex.submit(run_one, m, checks, args.tier, args.keep, {}): m for m in todo}
+        futs = {ex.submit(run_one, m, checks, args.tier, args.keep, {}, bool(only)): m for m in todo}
         for f in cf.as_completed(futs):
             m = futs[f]
             r = f.result()
